@@ -72,7 +72,15 @@ structure Transfer where
   dst : Id
   amount : Nat
   dstCanon : Bool := true
+  /-- only meaningful with `dstCanon = false`: the non-canonical spelling differs from the canonical id only in
+  characters the trie has already branched on (e.g. the leading hex letter upper-cased), so READS of that path
+  resolve to `dst`'s own leaf (`sumOfFromToBalance` sees `dst`'s balance); an all-upper-case spelling does not
+  (its leaf path differs byte-wise: reads find nothing). `transferAmount` refuses both. -/
+  dstSameLeaf : Bool := false
 deriving DecidableEq, Repr
+
+/-- a read of the destination path finds `dst`'s leaf. -/
+def Transfer.dstReadable (t : Transfer) : Bool := t.dstCanon || t.dstSameLeaf
 
 inductive TErr where
   | sameClient | insufficient | overflow | sumOverflow | nonCanonical
@@ -99,10 +107,10 @@ def transferCore (a : Accts) (t : Transfer) : Except TErr Accts :=
   else transferCore0 a t
 
 /-- `transferAmountWithAssert` = `sumOfFromToBalance` (an `AddCoin` of the two balances, which is an
-error when the sum is ≥ 2^64 — even for amount 0) followed by `transferAmount`. The assertion after
+error when the sum is ≥ 2^64 — even for amount 0; a destination path that no leaf answers reads as 0) followed by `transferAmount`. The assertion after
 the transfer panics only if the sum of the two balances changed, which `transfer_get` excludes. -/
 def transfer (a : Accts) (t : Transfer) : Except TErr Accts :=
-  if (get a t.src).balance + (if t.dstCanon then (get a t.dst).balance else 0) ≥ u64 then .error .sumOverflow
+  if (get a t.src).balance + (if t.dstReadable then (get a t.dst).balance else 0) ≥ u64 then .error .sumOverflow
   else transferCore a t
 
 def applyTransfers (a : Accts) : List Transfer → Except TErr Accts
@@ -153,6 +161,7 @@ structure Txn where
   to      : Id
   toValid : Bool        -- `encryption.IsHash(txn.ToClientID)`
   toCanon : Bool := true  -- the recipient id is spelled in canonical lower-case hex
+  toSameLeaf : Bool := false  -- (with `toCanon = false`) the spelling still resolves to the recipient's leaf
   value   : Nat
   fee     : Nat
   nonce   : Int
@@ -175,7 +184,7 @@ def addWrap (a b : Nat) : Nat := (a + b) % u64
 /-- the part of `updateState` after the contract ran: optional fee transfer, queued transfers in
 order, signed transfers, nonce increment. `none` = some transfer failed (whole txn rejected). -/
 def settle (feeOn : Bool) (a : Accts) (t : Txn) (transfers signed : List Transfer) : Option Accts :=
-  let q := if feeOn then transfers ++ [⟨t.sender, minerSC, t.fee, true⟩] else transfers
+  let q := if feeOn then transfers ++ [⟨t.sender, minerSC, t.fee, true, false⟩] else transfers
   match applyTransfers a (q ++ signed) with
   | .error _ => none
   | .ok a' =>
@@ -197,7 +206,7 @@ def step (feeOn : Bool) (s : St) (t : Txn) (r : CResult) : St × Status :=
       else if (get s.accts t.sender).balance < addWrap t.fee t.value then (s, .rejected)
       else if !t.toValid then (s, .rejected)
       else
-        match settle feeOn s.accts t [⟨t.sender, t.to, t.value, t.toCanon⟩] [] with
+        match settle feeOn s.accts t [⟨t.sender, t.to, t.value, t.toCanon, t.toSameLeaf⟩] [] with
         | none => (s, .rejected)
         | some a => ({ s with accts := a }, .success)
     | .sc =>
